@@ -85,7 +85,7 @@ def _components(n, edges):
     return comp
 
 
-ORDERS = [['', '+'], ['', '+', '++'], ['', '>'], ['', '>', '>>'], ['-', ''], ['<', ''], ['', '+', '++', '+++']]
+ORDERS = [['', '+'], ['', '+', '++'], ['', '>'], ['', '>', '>>'], ['-', ''], ['<', ''], ['', '+', '++', '+++'], ['', '*'], ['', '*']]
 
 
 def gen_link(rng, blocks):
